@@ -684,7 +684,8 @@ pub fn supervise(def: &'static PropDef, o: &RunOpts) -> (Summary, Vec<Value>) {
     .to_string();
   let scratch = format!("{}/target/scratch/{}-{}", VERIF, def.id, std::process::id());
   std::fs::create_dir_all(&scratch).expect("mkdir scratch");
-  let total = (def.cases)(o.tier);
+  // development aid: VH_CASES overrides the case count (never set by the registered commands)
+  let total = std::env::var("VH_CASES").ok().and_then(|s| s.parse().ok()).unwrap_or_else(|| (def.cases)(o.tier));
   let nshards = ((def.shards)(o.tier)).min(total.max(1) as usize).max(1);
   let mut handles = vec![];
   for sh in 0..nshards {
